@@ -30,7 +30,7 @@ def run(tier, seed):
     B = regrun.RegBench(chk, br, oracle_obj=A.O)
     import webauthn
     # ---- authentication ----
-    kinds = ["ES256-P256", "RS256"] if quick else list(authsim.KINDS)
+    kinds = ["ES256-P256", "RS256", "PS256", "EdDSA"] if quick else list(authsim.KINDS)
     for kind in kinds:
         s = authcat.Scn(kind)
         s.flags = 0x05
@@ -54,7 +54,7 @@ def run(tier, seed):
             chk.count(f"auth:{part}", len(orig) * 8)
     chk.sample({"ceremony": "authentication ES256-P256", "parts": {"authenticatorData_bits": len(a.ad) * 8, "clientDataJSON_bits": len(a.cdj) * 8, "signature_bits": len(a.sig) * 8}})
     # ---- registration ----
-    fmts = ["packed-self", "tpm", "fido-u2f"] if quick else [f for f in regsim.FORMATS if f != "none"]
+    fmts = ["packed-self", "tpm", "fido-u2f", "android-safetynet"] if quick else [f for f in regsim.FORMATS if f != "none"]
     for fmt in fmts:
         for kind, ak in ((("ES256-P256", "ES256-P256"),) if quick else (("ES256-P256", "ES256-P256"), ("RS256", "RS256"))):
             if fmt == "fido-u2f" and kind != "ES256-P256":
